@@ -277,6 +277,16 @@ def finish_c10(ctx, res, cf):
         if not ok:
             res.add(Finding('C10', 'C10.f', 'R-AGREE', lk.file, lk.qualname, c0.lineno, '%s=%s' % (kw, norm(v) if v is not None else 'missing'),
                             'the lookup helper does not forward %s unchanged from the lookup properties' % kw))
+    # ---- C10.f lookups read the store on every call: no per-object memory in the reading methods
+    from . import common
+    cf = res.clause('C10.f', 'R-PROV', 'lookup / fetch methods of the cassettes keep no state between calls', floor=3)
+    for cn in ('InMemoryTapeCassette', 'FileBasedTapeCassette', 'S3TapeCassette'):
+        c_ = repo.find_class(cn)
+        if c_ is None:
+            raise AnalysisError('anchor-lost class=%s' % cn)
+        common.stateless_methods_clause(res, cf, 'C10', 'C10.f', c_, ['iter_recording_ids', 'get_recording', 'get_recording_metadata',
+                                                                       'iter_recordings_metadata', 'extract_recording_category'],
+                                        'a lookup must reflect the store as it is now')
     return res
 
 
